@@ -24,9 +24,23 @@ Theorem ready_means_required_inputs_valid : forall c g,
 Proof. exact EngineFacts.ready_iff. Qed.
 Print Assumptions ready_means_required_inputs_valid.
 
+(* A producer that invalidates its output withdraws the value, and a consumer requiring that
+   input is then not ready: its user code does not run (first theorem above) until the
+   producer writes again. *)
+Theorem invalidation_withdraws_the_value : forall cfgs i opi g,
+  g_err g = 0 -> c_out (nth i cfgs dflt_cfg) = true -> (i < length (g_nodes g))%nat ->
+  n_val (node_at i (do_op cfgs i true opi OInvalidate g)) = None.
+Proof. exact EngineFacts.invalidate_withdraws. Qed.
+Print Assumptions invalidation_withdraws_the_value.
+
+Theorem invalid_required_input_blocks_user_code : forall c g s,
+  In s (c_ins c) -> (c_vmode c = 0 \/ i_req s = true) -> n_val (node_at (i_src s) g) = None -> ready c g = false.
+Proof. exact EngineFacts.invalid_input_blocks_user_code. Qed.
+Print Assumptions invalid_required_input_blocks_user_code.
+
 (* Ticks reach a node only through its ACTIVE inputs: when a producer writes, the only
    nodes whose graph slot changes are those with an input bound to it that is active at
-   that moment (declared active and not made passive since, or made active at run time). *)
+   that moment (an invalidation notifies exactly like a write) (declared active and not made passive since, or made active at run time). *)
 Theorem ticks_wake_only_through_active_inputs : forall cfgs src g k,
   slot_at k (notify_from cfgs 0 src g) <> slot_at k g ->
   exists m c, nth_error cfgs m = Some c /\ k = (0 + m)%nat /\
@@ -35,8 +49,9 @@ Proof. intros cfgs. exact (EngineFacts.notify_only_active cfgs 0%nat). Qed.
 Print Assumptions ticks_wake_only_through_active_inputs.
 
 (* What the user code reads for an input is the producer's current output: valid iff the
-   producer has a value, modified iff the producer wrote in this cycle, the value and
-   last-modified time are the producer's. *)
+   producer has a value (written and not invalidated since), and for a valid input: modified
+   iff the producer wrote in this cycle, the value is the producer's; the last-modified time
+   is that of the last notification (write or invalidation). *)
 Theorem reads_latest : forall g s,
   let p := node_at (i_src s) g in
   let v := read_input g s in
@@ -50,8 +65,8 @@ Print Assumptions reads_latest.
    when (a) its slot held t when the cycle began - a wake-up it asked for itself (scheduler
    event, start request, raw request; Props/C02.v shows the slot of a scheduler node is its
    earliest pending time - or, the recorded finding, a time it has since cancelled), or
-   (b) the node is started and some node before it wrote, in this cycle, an output that one of
-   its inputs ACTIVE at that moment is bound to.  Ticks on passive inputs alone never
+   (b) the node is started and some node before it wrote (or invalidated), in this cycle, an
+   output that one of its inputs ACTIVE at that moment is bound to.  Ticks on passive inputs alone never
    evaluate it; and it is evaluated at most once.  For every graph, user code and state. *)
 Theorem evaluated_exactly_when_due_or_active_input_ticked : forall cfgs beh t g,
   length (g_slots g) = length cfgs -> length (g_nodes g) = length cfgs ->
